@@ -518,4 +518,6 @@ def check(fx, rep, tier):
     for rule, (fl, what) in sub.floors.items():
         if sub.count(rule) < fl:
             rep.bad('E8', 'floor|' + rule, '-', 'anchor lost in imported rule %s: expected %d %s' % (rule, fl, what))
+    import imports as _imp
+    _imp.layer(fx, rep, 'C03')
     return META
